@@ -107,7 +107,7 @@ Lemma cw_schedule_cancels : forall wd ls inv st st' d,
 Proof.
   intros wd ls inv st st' d H. unfold cw_schedule in H.
   destruct (admission wd (i_now inv) (i_offered inv) st []) as [[st1 c]|] eqn:Ea; [|discriminate].
-  destruct (i_load inv) as [[l ps']|];
+  destruct (load_pools inv) as [ps|]; [|discriminate].
   match type of H with context [infer_pools ?a ?b ?c ?d ?e] => destruct (infer_pools a b c d e) as [[st2 bs]|]; [|discriminate] end;
   injection H as <- <-; cbn [d_cancel]; eapply admission_cancels_exactly; eassumption.
 Qed.
